@@ -89,6 +89,7 @@ type HarnessRun struct {
 	assertLabels map[string]int
 	solverErrs  []string
 	passModels  []passModel
+	inconclusivePaths int
 }
 
 type passModel struct {
@@ -388,6 +389,10 @@ func (e *Engine) RunHarness(fn *ssa.Function, logDir string) *HarnessRun {
 			h.inconclusive = append(h.inconclusive, fmt.Sprintf("path bound %d reached", e.maxPaths))
 			break
 		}
+		if h.inconclusivePaths > 300 {
+			h.inconclusive = append(h.inconclusive, fmt.Sprintf("%d paths ended inconclusive, stopping the exploration", h.inconclusivePaths))
+			break
+		}
 		if len(h.inconclusive) > 20 {
 			h.inconclusive = append(h.inconclusive, "too many inconclusive paths, stopping")
 			break
@@ -417,6 +422,7 @@ func (ex *Exec) runPath(fn *ssa.Function) {
 				h.stats.Pruned++
 			case "inconclusive":
 				h.stats.Paths++
+				h.inconclusivePaths++
 				msg := p.msg
 				dup := false
 				for _, m := range h.inconclusive {
